@@ -9,11 +9,13 @@
 """
 import json, os, subprocess, sys, shutil, time
 
-prop, src, name = sys.argv[1], sys.argv[2], sys.argv[3]
-extra = sys.argv[4:]
+args = [a for a in sys.argv[1:] if not a.startswith("--")]
+PORTABLE_DEMO = "--portable-demo" in sys.argv
+prop, src, name = args[0], args[1], args[2]
+extra = args[3:]
 WT = "/tmp/wt/eval"
 ENV = dict(os.environ, CARGO_NET_OFFLINE="true")
-FEATURES = "rayon,serde,rustc-internal-api"
+FEATURES = "rayon,serde,rustc-internal-api,verif-hooks"
 
 def run(cmd, cwd=None, timeout=3600):
     p = subprocess.run(cmd, cwd=cwd, env=ENV, shell=isinstance(cmd, str), stdout=subprocess.PIPE, stderr=subprocess.STDOUT, text=True, timeout=timeout)
@@ -27,7 +29,7 @@ head = run(["git", "-C", "/repo", "rev-parse", "HEAD"])[1].strip()
 run(["git", "checkout", "-q", "--detach", head], cwd=WT)
 patch = os.path.join(src, "patch.diff")
 demo = os.path.join(src, "demo.rs")
-meta = {"property": prop, "name": name, "repo_head": head, "time": time.strftime("%Y-%m-%d %H:%M:%S")}
+meta = {"property": prop, "name": name, "demo_built_with_portable_scanner": PORTABLE_DEMO, "repo_head": head, "time": time.strftime("%Y-%m-%d %H:%M:%S")}
 rc, out = run(["git", "apply", "--check", patch], cwd=WT)
 if rc != 0:
     print("PATCH DOES NOT APPLY:", out); sys.exit(3)
@@ -38,7 +40,11 @@ base_ok = "109 passed" in out and "failed" not in out.split("Summary")[-1]
 print("baseline with change:", meta["baseline_with_change"])
 shutil.copy(demo, os.path.join(WT, "tests", "zz_demo.rs"))
 def demo_run():
-    rc, out = run(f"cargo test --offline --features {FEATURES} --test zz_demo 2>&1 | tail -25", cwd=WT, timeout=1800)
+    pre = ""
+    if PORTABLE_DEMO:
+        # build the crate with its portable (8-byte) group scanner: --cfg miri for crate hashbrown only
+        pre = "RUSTC_WRAPPER=/verif/engine/rustc-wrap.sh CARGO_TARGET_DIR=/tmp/wt/eval/target-portable "
+    rc, out = run(f"{pre}cargo test --offline --features {FEATURES} --test zz_demo 2>&1 | tail -25", cwd=WT, timeout=1800)
     ok = "test result: ok" in out and "FAILED" not in out and "error" not in out.split("test result")[0][-200:]
     return ok, out
 ok_with, out_with = demo_run()
